@@ -292,10 +292,20 @@ fn run(variant: usize) -> CaseOut {
     let schema = world::static_schema(0).clone();
     let consumer = move |mut ws: Pin<Box<dyn Stream<Item = WsMessage>>>| async move {
         let mut n = 0u32;
+        let mut items = 0u32;
         loop {
             if lag > 0 {
                 n += 1;
                 sim::sleep(world::latency_for(&format!("wsconsumer{n}")) * lag).await;
+            }
+            items += 1;
+            if items % 64 == 0 {
+                // a connection that produces output forever must not starve the scheduler
+                sim::yield_now().await;
+            }
+            if items > 5_000 {
+                wslog(WsEv::OutEnd);
+                break;
             }
             match ws.next().await {
                 Some(WsMessage::Text(t)) => {
